@@ -6,12 +6,15 @@ Pick(S) == RandomElement(S)
 MInit == Init /\ hist = <<>>
 MNext ==
   /\ Len(hist) < Depth
-  /\ \E w \in {Pick(1..10)}, d \in {Pick(Vouchers)}, a \in {IF Pick(1..3) = 1 THEN Pick(AmtClasses) ELSE Pick({"1", "2"})},
+  /\ \E w \in {Pick(1..14)}, d \in {Pick(Vouchers)}, a \in {IF Pick(1..3) = 1 THEN Pick(AmtClasses) ELSE Pick({"1", "2"})},
         r \in {IF Pick(1..4) = 1 THEN Pick(RecvClasses) ELSE "user"} :
        \/ w <= 5 /\ RecvEff(d, a, r) /\ last' = [act |-> "Recv", res |-> "ok", denom |-> d, amt |-> a, recv |-> r, committed |-> Committed(a, r)]
        \/ w \in {6, 7} /\ RegisterEff(d) /\ last' = [act |-> "Register", res |-> Res(RegisterOK(d)), denom |-> d]
        \/ w = 8 /\ ToggleEff(d) /\ last' = [act |-> "Toggle", res |-> Res(ToggleOK(d)), denom |-> d]
-       \/ w >= 9 /\ \E on \in {IF enabled THEN Pick(1..2) = 1 ELSE TRUE} : ParamEff(on) /\ last' = [act |-> "Param", res |-> "ok", on |-> on]
+       \/ w \in {9, 10} /\ \E on \in {IF enabled THEN Pick(1..2) = 1 ELSE TRUE} : ParamEff(on) /\ last' = [act |-> "Param", res |-> "ok", on |-> on]
+       \/ w = 11 /\ RegisterExtEff /\ last' = [act |-> "RegisterExt", res |-> Res(RegisterExtOK)]
+       \/ w \in {12, 13} /\ AddExtEff(d) /\ last' = [act |-> "AddExt", res |-> Res(AddExtOK(d)), denom |-> d]
+       \/ w = 14 /\ \E n \in {Pick({1, 2})} : mx + n <= 3 /\ FundEff(n) /\ last' = [act |-> "Fund", res |-> "ok", n |-> n]
   /\ hist' = Append(hist, last')
 MSpec == MInit /\ [][MNext]_<<vars, hist>>
 Emit == Len(hist) = Depth => PrintT(<<"MBT", ToJson(hist)>>)
